@@ -516,3 +516,51 @@ pub fn check_against_model(d: &Dump, m: &crate::gen::Model, contents_readable: b
     expect("index[no-such-index]".into(), Leaf::Absent);
     bad
 }
+
+/// Direct open of one pack (cut out of a file at a span the harness knows from the pristine
+/// layout) through the pack type's own public constructor, bypassing `Container` and the
+/// container-pack reader (which verify the 64-byte header themselves before handing over).
+pub fn dump_direct(label: &str, bytes: &[u8], kind: u8, out: &mut Dump) {
+    let base = format!("direct[{label}]");
+    let reader: jbk::Reader = bytes.to_vec().into();
+    let common = |out: &mut Dump, p: &dyn Pack| {
+        out.push(format!("{base}/uuid"), Leaf::Val(p.uuid().to_string()));
+        out.push(format!("{base}/kind"), Leaf::Val(format!("{:?}", p.kind())));
+        out.push(format!("{base}/size"), Leaf::Val(p.size().into_u64().to_string()));
+        out.push(format!("{base}/vendor"), Leaf::Val(format!("{:?}", p.app_vendor_id())));
+        out.push(format!("{base}/version"), Leaf::Val(format!("{:?}", p.version())));
+        out.push(format!("{base}/check"), check_leaf(p.check()));
+    };
+    match kind {
+        b'm' => match jbk::reader::ManifestPack::new(reader) {
+            Err(e) => out.push(base.clone(), Leaf::Err(err_class(&e))),
+            Ok(m) => {
+                common(out, &m);
+                out.push(format!("{base}/pack_count"), Leaf::Val(m.pack_count().into_u64().to_string()));
+                out.push(format!("{base}/dirinfo"), Leaf::Val(pack_info_str(m.get_directory_pack_info())));
+                for (i, info) in m.get_pack_infos().iter().enumerate() {
+                    out.push(format!("{base}/packinfo[{i}]"), Leaf::Val(pack_info_str(info)));
+                }
+            }
+        },
+        b'd' => match jbk::reader::DirectoryPack::new(reader) {
+            Err(e) => out.push(base.clone(), Leaf::Err(err_class(&e))),
+            Ok(d) => {
+                common(out, &d);
+                out.push(format!("{base}/free"), Leaf::Val(format!("{:?}", d.get_free_data())));
+            }
+        },
+        b'c' => match jbk::reader::ContentPack::new(reader) {
+            Err(e) => out.push(base.clone(), Leaf::Err(err_class(&e))),
+            Ok(c) => {
+                common(out, &c);
+                out.push(
+                    format!("{base}/content_count"),
+                    Leaf::Val(c.get_content_count().into_u64().to_string()),
+                );
+                out.push(format!("{base}/free"), Leaf::Val(format!("{:?}", c.get_free_data())));
+            }
+        },
+        _ => {}
+    }
+}
